@@ -336,7 +336,11 @@ func r13d(c *an.Ctx) {
 		// false, or a comma-ok lookup of the target in the bind map fails. From that edge every return must carry a
 		// non-nil error.
 		ok := false
-		var starts []*ssa.BasicBlock
+		type startEdge struct {
+			b *ssa.BasicBlock
+			i int
+		}
+		var starts []startEdge
 		for _, b := range fn.Blocks {
 			v, trueIdx, isC := an.BoolCondEdge(b)
 			if !isC {
@@ -363,18 +367,18 @@ func r13d(c *an.Ctx) {
 					})
 				}
 				if inRange {
-					starts = append(starts, b.Succs[1-trueIdx])
+					starts = append(starts, startEdge{b, 1 - trueIdx})
 				}
 			case *ssa.Extract:
 				if lk, isLk := x.Tuple.(*ssa.Lookup); isLk && lk.CommaOk && x.Index == 1 && strings.HasSuffix(lk.X.Type().String(), "channel.BindMap") {
-					starts = append(starts, b.Succs[1-trueIdx])
+					starts = append(starts, startEdge{b, 1 - trueIdx})
 				}
 			}
 		}
 		if len(starts) > 0 {
 			ok = true
 			for _, st := range starts {
-				fl := an.FlowFrom(st, nil)
+				fl := an.FlowFromEdge(st.b, st.i, nil)
 				rets := fl.ReachedReturns()
 				if len(rets) == 0 {
 					ok = false
@@ -420,7 +424,7 @@ func r13d(c *an.Ctx) {
 			}
 			for _, t := range an.ErrTests(ev) {
 				// from the error edge: straight to a return of a non-nil error - no further command, no next loop iteration
-				fl := an.FlowFromFacts(t.NonNilSucc, nil, ev)
+				fl := an.FlowFromEdge(t.If.Block(), succIndex(t.If.Block(), t.NonNilSucc), nil, ev)
 				good := true
 				for _, a := range avoid {
 					if fl.Reaches(a) {
@@ -488,7 +492,7 @@ func r13e(c *an.Ctx) {
 				}
 				seen = true
 				// from "alias already defined": no store into the bind map is reachable within this iteration
-				fl := an.FlowFrom(b.Succs[trueIdx], endOfIteration)
+				fl := an.FlowFromEdge(b, trueIdx, endOfIteration)
 				for _, st := range stores {
 					if fl.Reaches(st) {
 						ok = false
@@ -503,7 +507,7 @@ func r13e(c *an.Ctx) {
 						if !isCond || cv != ssa.Value(call) {
 							continue
 						}
-						f2 := an.FlowFrom(bb.Succs[1-ti], nil)
+						f2 := an.FlowFromEdge(bb, 1-ti, nil)
 						rets := f2.ReachedReturns()
 						good := len(rets) > 0
 						for _, ret := range rets {
@@ -546,6 +550,38 @@ func r13e(c *an.Ctx) {
 		if s, isS := an.ConstString(ci.Common().Args[1]); isS && s == "::" {
 			pref = true
 		}
+	}
+	// the equality itself: two endpoints are equal only if their hosts are (whole-value equality, or a comparison of the
+	// Host fields, must be known true wherever true can be returned)
+	if eq := c.MustFn("core/task/channel", "EndpointEquals"); eq != nil {
+		c.Mark(eq)
+		tests := 0
+		bad := an.BoolOnlyIf(eq, true, func(v ssa.Value) (bool, bool) {
+			bo, isBo := v.(*ssa.BinOp)
+			if !isBo || bo.Op != token.EQL {
+				return false, false
+			}
+			tn := bo.X.Type().String()
+			if strings.HasSuffix(tn, "channel.TcpEndpoint") || strings.HasSuffix(tn, "channel.IpcEndpoint") {
+				tests++
+				return true, true
+			}
+			if isFieldNamed(an.Strip(bo.X), "Host") && isFieldNamed(an.Strip(bo.Y), "Host") {
+				tests++
+				return true, true
+			}
+			if isFieldNamed(an.Strip(bo.X), "Path") && isFieldNamed(an.Strip(bo.Y), "Path") {
+				tests++
+				return true, true
+			}
+			return false, false
+		})
+		pos := eq.Pos()
+		if len(bad) > 0 {
+			pos = bad[0].Pos()
+		}
+		c.Ob("core/task/channel.EndpointEquals|hosts-compared", pos, len(bad) == 0 && tests > 0,
+			"EndpointEquals can answer true without the two endpoints' hosts (or whole values) having been compared equal: endpoints on different hosts with the same port then count as one endpoint and a conflicting global alias is accepted")
 	}
 	c.Ob("(*core/task.Manager).configureTasks|alias-conflict", store.Pos(), ok && seen && pref, "an already defined global alias must never be overwritten: same endpoint => skip, different endpoint => error")
 	_ = token.NoPos
